@@ -53,7 +53,7 @@ func parse(name string) cfg {
 type call struct {
 	fn      int
 	args    []int
-	outcome int // 0 ok 1 error 2 panic(string) 3 short 4 panic(error) 5 panic(int) 6 panic(struct)
+	outcome int // 0 ok 1 error 2 panic(string) 3 short 4 panic(error) 5 panic(int) 6 panic(struct) 7 results+error 8 some results+error
 }
 
 type ret struct {
@@ -101,7 +101,7 @@ func item(c cfg) *explore.Item {
 					}
 					calls = append(calls, cl)
 					if c.Faults {
-						cl.outcome = rt.Choose(7, true, "many-outcome")
+						cl.outcome = rt.Choose(9, true, "many-outcome")
 					}
 					rt.Yield()
 					switch cl.outcome {
@@ -122,6 +122,12 @@ func item(c cfg) *explore.Item {
 					}
 					if cl.outcome == 3 {
 						return res[:len(res)-1], nil
+					}
+					if cl.outcome == 7 { // the "partial result and error" convention: all results next to an error
+						return res, errBatch
+					}
+					if cl.outcome == 8 { // some results next to an error
+						return res[:len(res)-1], errBatch
 					}
 					return res, nil
 				}}
@@ -285,5 +291,5 @@ func run(rp *explore.Report, tier string) {
 func init() {
 	reg.Register(&reg.Harness{Property: "C05", Name: "c05/batch", Level: "model_checking", Bounds: [2]int{3, 4}, Run: run,
 		Item: func(name string) *explore.Item { return item(parse(name)) },
-		Rule: "items = callers K x shard function (by parity; by values of two named types that print alike) x MaxSize x canceller thread (cancelling everything, or only one caller's own context with a later call on the live batching context) x concurrency limiter size x batch-function outcome (explorer choice: ok / error / short result / panic with a string, an error, an int or a struct value); all interleavings incl. early firings of the virtual wait-interval and max-duration timers within the deviation bound, on the real batch.Func.Invoke; non-trivial = K>1 concurrent callers"})
+		Rule: "items = callers K x shard function (by parity; by values of two named types that print alike) x MaxSize x canceller thread (cancelling everything, or only one caller's own context with a later call on the live batching context) x concurrency limiter size x batch-function outcome (explorer choice: ok / error / results next to an error / short result / panic with a string, an error, an int or a struct value); all interleavings incl. early firings of the virtual wait-interval and max-duration timers within the deviation bound, on the real batch.Func.Invoke; non-trivial = K>1 concurrent callers"})
 }
